@@ -24,6 +24,27 @@ Theorem c08_aad_encrypt : forall O g o d x,
     x_aadseg x = match e_ser o with Compact => b64e a | _ => spec_aad (b64e a) (e_aad o) end.
 Proof. exact aad_encrypt_side. Qed.
 
+(* ... stated about the object AFTER perform_encrypt, whatever its base64_segments held before ([prior]): the AAD
+   fed to the content encryption is the spec AAD over the "protected" member that represent_*_json EMITS
+   (compact: the first segment of the emitted string) *)
+Theorem c08_aad_is_emitted_json : forall O g prior o d x data,
+  e_ser o <> Compact ->
+  perform_encrypt_obj O prior g o d = Ok x -> represent_json O o x = Ok data ->
+  exists p, py_getitem_str data (s_ "protected") = Ok (PStr p) /\
+            x_aadseg x = spec_aad p (e_aad o).
+Proof. exact aad_is_emitted_json. Qed.
+
+Theorem c08_aad_is_emitted_compact : forall O g prior o d x tok,
+  e_ser o = Compact ->
+  perform_encrypt_obj O prior g o d = Ok x -> represent_compact x = Ok tok ->
+  exists rest, tok = x_aadseg x ++ 46 :: rest /\ x_aadseg x = x_b64prot x.
+Proof. exact aad_is_emitted_compact. Qed.
+
+Theorem c08_prior_segments_irrelevant : forall O g prior1 prior2 o d,
+  perform_encrypt_obj O prior1 g o d = perform_encrypt_obj O prior2 g o d /\
+  encrypt_json_obj O prior1 g o d = encrypt_json_obj O prior2 g o d.
+Proof. exact prior_segments_irrelevant. Qed.
+
 (* ---- AL (RFC 7518 5.2.2.1) ---- *)
 Theorem c08_al : forall a, lenN a * 8 < 2 ^ 64 ->
   encode_int (Z.of_N (lenN a * 8)) 64 = Ok (spec_al a).
@@ -181,6 +202,9 @@ Proof. exact foreign_spelling_json. Qed.
 
 Print Assumptions c08_aad.
 Print Assumptions c08_aad_encrypt.
+Print Assumptions c08_aad_is_emitted_json.
+Print Assumptions c08_aad_is_emitted_compact.
+Print Assumptions c08_prior_segments_irrelevant.
 Print Assumptions c08_al.
 Print Assumptions c08_key_split.
 Print Assumptions c08_tag_trunc.
